@@ -65,17 +65,87 @@ def _limits():
     resource.setrlimit(resource.RLIMIT_AS, (12 << 30, 12 << 30))
 
 
-def coq_build(targets=None, timeout=1500, jobs=16):
-    """Full .vo build of the hand-written development (never -vos).  Serialised by a lock.
-    targets: list of .vo paths relative to coq/ (default: everything).
-    Returns (ok, log)."""
+WARN = "-notation-overridden,-deprecated-hint-without-locality,-deprecated-instance-without-locality,-deprecated-syntactic-definition"
+
+
+def coq_make_all(timeout=7200, jobs=16):
+    """Full clean-able build of the whole development through coq_makefile (setup, final check)."""
     os.makedirs(os.path.join(ROOT, ".build"), exist_ok=True)
     with open(os.path.join(ROOT, ".build", "coq.lock"), "w") as lk:
         fcntl.flock(lk, fcntl.LOCK_EX)
         _gen_coqproject()
-        cmd = ["timeout", str(timeout), "make", "-k", "-j%d" % jobs] + (targets or [])
+        cmd = ["timeout", str(timeout), "make", "-k", "-j%d" % jobs]
         r = subprocess.run(cmd, cwd=COQ, stdout=subprocess.PIPE, stderr=subprocess.STDOUT, text=True, preexec_fn=_limits)
         return r.returncode == 0, r.stdout
+
+
+def _coqdep():
+    files = sorted(glob.glob(os.path.join(THEORIES, "*", "*.v")))
+    r = subprocess.run(["coqdep", "-Q", "theories", "Verif"] + [os.path.relpath(f, COQ) for f in files],
+                       cwd=COQ, stdout=subprocess.PIPE, stderr=subprocess.DEVNULL, text=True)
+    deps = {}
+    for line in r.stdout.split("\n"):
+        if ":" not in line:
+            continue
+        lhs, rhs = line.split(":", 1)
+        vo = [x for x in lhs.split() if x.endswith(".vo")]
+        if not vo:
+            continue
+        deps[vo[0]] = [x for x in rhs.split() if x.endswith(".vo")]
+    return deps
+
+
+def coq_build(targets=None, timeout=1500, jobs=16):
+    """Full .vo build (never -vos) of the given targets (paths relative to coq/, default everything) and what they
+    depend on, file by file with coqc in dependency order.  A lock per theory directory lets several builders
+    work on different properties at once.  Returns (ok, log)."""
+    deps = _coqdep()
+    if targets is None:
+        targets = sorted(deps)
+    need, stack = [], list(targets)
+    seen = set()
+
+    def visit(t):
+        if t in seen:
+            return
+        seen.add(t)
+        for d in deps.get(t, []):
+            visit(d)
+        need.append(t)
+    for t in targets:
+        visit(t)
+    log, ok_all = [], True
+    failed = set()
+    os.makedirs(os.path.join(ROOT, ".build"), exist_ok=True)
+    t_end = time.time() + timeout
+    for vo in need:
+        src = os.path.join(COQ, vo[:-1])
+        out = os.path.join(COQ, vo)
+        if not os.path.exists(src):
+            continue
+        if any(d in failed for d in deps.get(vo, [])):
+            failed.add(vo); ok_all = False
+            log.append("SKIP %s (a dependency failed)" % vo)
+            continue
+        d = os.path.basename(os.path.dirname(src))
+        with open(os.path.join(ROOT, ".build", "coq-%s.lock" % d), "w") as lk:
+            fcntl.flock(lk, fcntl.LOCK_EX)
+            stale = (not os.path.exists(out)) or os.path.getmtime(out) < os.path.getmtime(src) or any(
+                os.path.exists(os.path.join(COQ, dd)) and os.path.getmtime(os.path.join(COQ, dd)) > os.path.getmtime(out)
+                for dd in deps.get(vo, []))
+            if not stale:
+                continue
+            left = max(10, int(t_end - time.time()))
+            r = subprocess.run(["timeout", str(left), "coqc", "-q", "-w", WARN, "-Q", "theories", "Verif", vo[:-1]],
+                               cwd=COQ, stdout=subprocess.PIPE, stderr=subprocess.STDOUT, text=True, preexec_fn=_limits)
+            log.append("COQC %s -> %d" % (vo[:-1], r.returncode))
+            if r.returncode != 0:
+                ok_all = False
+                failed.add(vo)
+                log.append(r.stdout[-3000:] if r.stdout.strip() else "(no output: timeout after %ds or out of memory)" % left)
+                if os.path.exists(out):
+                    os.remove(out)
+    return ok_all, "\n".join(log)
 
 
 def prop_targets(prop):
@@ -360,7 +430,7 @@ def standard_flow(ctx, cfg):
 
     # 1. proofs
     ctx.log("building Coq development")
-    ok, log = coq_build(prop_targets("Common") + prop_targets(prop) + sum([prop_targets(d) for d in cfg.get("deps", [])], []))
+    ok, log = coq_build(["theories/Common/CaseLib.vo"] + prop_targets(prop) + sum([prop_targets(d) for d in cfg.get("deps", [])], []))
     forb = scan_forbidden([prop] + cfg.get("deps", []))
     pr = dict(obligations=0, discharged=0, axioms=[], theorems=[], ok=False, log="")
     proof_broken = None
